@@ -73,6 +73,10 @@ struct OpSlot {
     ud_inflight: Option<u64>,
     /// blocks of the resources handed to the operation (buffers)
     res_blocks: Vec<u64>,
+    /// (address, length) of those resources
+    res_addrs: Vec<(usize, usize)>,
+    /// number of submissions published for it
+    attempts: u32,
     // --- oracle state ---
     /// C02: results the caller must still observe, in order.
     expected: VecDeque<i64>,
@@ -234,6 +238,7 @@ impl LifeCase {
                 }
             }
             op.last_sqe = Some(bytes);
+            op.attempts += 1;
             op.slot = None;
             lines.push(format!("sqe op{i} {}", simk::opcode_name(sqe.opcode)));
         }
@@ -246,7 +251,14 @@ impl LifeCase {
             let who = self.ops.iter().position(|o| o.state_block == Some(b.id));
             match who {
                 Some(i) => self.fail("C06", "C06/double-free", format!("state of op{i} freed twice (use after free)")),
-                None => self.fail("C06", "C06/double-free-resources", format!("a resource buffer ({} bytes) was freed twice", b.size)),
+                None => {
+                    self.fail("C06", "C06/double-free-resources", format!("a resource buffer ({} bytes) was freed twice", b.size));
+                    let restarted = self.ops.iter().position(|o| o.attempts >= 2 && o.res_blocks.contains(&b.id));
+                    if let Some(i) = restarted {
+                        let kind = self.ops[i].kind.clone();
+                        self.fail("C09", &format!("C09/resources-released-before-reissue/{kind}"), format!("the buffer of the re-issued op{i} was released twice: once when the interruption was swallowed, once at the end"));
+                    }
+                }
             }
         }
         for b in track::drain_frees() {
@@ -269,6 +281,12 @@ impl LifeCase {
                 KEv::BadMemory { seq, what, addr } => {
                     let sig = format!("C01/freed-while-in-flight/{what}");
                     self.fail("C01", &sig, format!("kernel about to touch {what} at {addr:#x} of submission #{seq}, which is no longer the block it was at submission"));
+                    // C09: was it a re-issued operation whose resources were released in between?
+                    let restarted = self.ops.iter().position(|o| o.attempts >= 2 && o.res_addrs.iter().any(|(a, l)| addr >= *a && addr < *a + (*l).max(1)));
+                    if let Some(i) = restarted {
+                        let kind = self.ops[i].kind.clone();
+                        self.fail("C09", &format!("C09/resources-released-before-reissue/{kind}"), format!("op{i} was re-issued after an interruption with {what} at {addr:#x}, which had been released (not the same resources)"));
+                    }
                 }
                 KEv::FreedState { seq, user_data } => {
                     self.fail("C01", "C01/state-freed-before-final-cqe", format!("operation state {user_data:#x} (submission #{seq}) freed before its final completion"));
@@ -549,10 +567,12 @@ impl Case for LifeCase {
                 }
                 let fd = self.fd;
                 let mut res_blocks = Vec::new();
+                let mut res_addrs: Vec<(usize, usize)> = Vec::new();
                 let (obj, state): (Box<dyn Pollable>, Option<usize>) = match *kind {
                     "read" => {
                         let buf: Vec<u8> = Vec::with_capacity(64);
                         res_blocks.extend(track::watch(buf.as_ptr() as usize).map(|b| b.id));
+                        res_addrs.push((buf.as_ptr() as usize, buf.capacity()));
                         let mark = track::next_id();
                         let fut = fd.read(buf);
                         let st = single_new_block(mark);
@@ -561,6 +581,7 @@ impl Case for LifeCase {
                     "write" => {
                         let buf: Vec<u8> = vec![0x5A; 64];
                         res_blocks.extend(track::watch(buf.as_ptr() as usize).map(|b| b.id));
+                        res_addrs.push((buf.as_ptr() as usize, buf.capacity()));
                         let mark = track::next_id();
                         let fut = fd.write(buf);
                         let st = single_new_block(mark);
@@ -569,6 +590,7 @@ impl Case for LifeCase {
                     "sendzc" => {
                         let buf: Vec<u8> = vec![0x7E; 64];
                         res_blocks.extend(track::watch(buf.as_ptr() as usize).map(|b| b.id));
+                        res_addrs.push((buf.as_ptr() as usize, buf.capacity()));
                         let mark = track::next_id();
                         let fut = fd.send(buf).zc();
                         let st = single_new_block(mark);
@@ -598,6 +620,8 @@ impl Case for LifeCase {
                     user_data: None,
                     ud_inflight: None,
                     res_blocks,
+                    res_addrs,
+                    attempts: 0,
                     expected: VecDeque::new(),
                     slot: None,
                     last_pending: None,
